@@ -22,6 +22,10 @@
 #include <vector>
 
 #include <tao/pegtl.hpp>
+#include <tao/pegtl/contrib/check_bytes.hpp>
+#include <tao/pegtl/contrib/input_with_depth.hpp>
+#include <tao/pegtl/contrib/limit_bytes.hpp>
+#include <tao/pegtl/contrib/limit_depth.hpp>
 
 namespace vt
 {
@@ -158,6 +162,7 @@ namespace vt
       bool tracing = true;          // false: only results are wanted
       bool in_case = false;
       int fuel_cases = 0;           // cases of the current bundle that ran out of fuel
+      std::vector< std::string > inputs;  // explicit inputs, used in addition to the enumerated strings
    };
 
    inline Global& g()
@@ -224,6 +229,11 @@ namespace vt
    inline constexpr long long ak_of< T, std::void_t< decltype( T::ak ) > > = T::ak;
 
    template< typename T, typename = void >
+   inline constexpr int lim_of = 0;  // limit attached in action family 4: kind * 1000 + N (1 limit_depth, 2 limit_bytes, 3 check_bytes)
+   template< typename T >
+   inline constexpr int lim_of< T, std::void_t< decltype( T::lim ) > > = T::lim;
+
+   template< typename T, typename = void >
    inline constexpr int sel_of = 0;  // parse-tree selector mask
    template< typename T >
    inline constexpr int sel_of< T, std::void_t< decltype( T::sel ) > > = T::sel;
@@ -273,6 +283,11 @@ namespace vt
       using type = typename Rule::subs_t;
    };
 
+   template< typename T, typename = void >
+   inline constexpr bool is_rule = false;
+   template< typename T >
+   inline constexpr bool is_rule< T, std::void_t< typename T::rule_t > > = true;
+
    template< typename Rule >
    void describe()
    {
@@ -281,6 +296,26 @@ namespace vt
          return;
       }
       nodes()[ std::size_t( id ) ].described = true;
+      if constexpr( !is_rule< Rule > ) {
+         // a type that is only named by raise< T > or used as Control< T >::raise (limit_depth< N >, ...)
+         Writer& w = g().tb;
+         w.s( "{\"id\":" );
+         w.i( id );
+         w.str( "name", nodes()[ std::size_t( id ) ].name );
+         w.str( "rule_t", "" );
+         w.str( "dn", pegtl::demangle< Rule >() );
+         w.s( ",\"subs\":[]" );
+         w.kv( "en", 0 );
+         w.kv( "vid", 0 );
+         w.kv( "ak", 0 );
+         w.kv( "sel", 0 );
+         w.kv( "lim", 0 );
+         w.kv( "hasmsg", emsg_of< Rule >::has ? 1 : 0 );
+         w.str( "emsg", emsg_of< Rule >::get() );
+         w.s( "}\n" );
+         return;
+      }
+      else {
       std::vector< int > kids;
       describe_list< typename subs_of< Rule >::type >::run( kids );
       Writer& w = g().tb;
@@ -300,10 +335,12 @@ namespace vt
       w.kv( "vid", vid_of< Rule > );
       w.kv( "ak", ak_of< Rule > );
       w.kv( "sel", sel_of< Rule > );
+      w.kv( "lim", lim_of< Rule > );
       w.kv( "hasmsg", emsg_of< Rule >::has ? 1 : 0 );
       w.str( "emsg", emsg_of< Rule >::get() );
       w.s( "}\n" );
       w.maybe_flush();
+      }
    }
 
    // ------------------------------------------------------------------ cursors
@@ -355,11 +392,11 @@ namespace vt
       }
    };
    template< typename In >
-   struct depth_of< In, std::void_t< decltype( std::declval< const In& >().private_depth ) > >
+   struct depth_of< In, std::void_t< decltype( std::declval< const In& >().current_depth() ) > >
    {
       static long long get( const In& in )
       {
-         return (long long)in.private_depth;
+         return (long long)in.current_depth();
       }
    };
 
@@ -892,10 +929,29 @@ namespace vt
    VT_DEFINE_FAM( 1 )
    VT_DEFINE_FAM( 2 )
    VT_DEFINE_FAM( 3 )
-   VT_DEFINE_FAM( 4 )
+   // family 4 is the limits family (see below)
    VT_DEFINE_FAM( 5 )
    VT_DEFINE_FAM( 6 )
    VT_DEFINE_FAM( 7 )
+
+   // family 4: limits (C18).  A rule type carries  static constexpr int lim = kind * 1000 + N
+   template< typename Rule, int Kind, std::size_t N >
+   struct lim_body : pegtl::nothing< Rule >
+   {};
+   template< typename Rule, std::size_t N >
+   struct lim_body< Rule, 1, N > : pegtl::limit_depth< N >
+   {};
+   template< typename Rule, std::size_t N >
+   struct lim_body< Rule, 2, N > : pegtl::limit_bytes< N >
+   {};
+   template< typename Rule, std::size_t N >
+   struct lim_body< Rule, 3, N > : pegtl::check_bytes< N >
+   {};
+   template< typename Rule >
+   struct fam4 : lim_body< Rule, lim_of< Rule > / 1000, std::size_t( lim_of< Rule > % 1000 ) >
+   {
+      static constexpr int vfam = 4;
+   };
 
    // ------------------------------------------------------------------ case driver
 
@@ -987,8 +1043,19 @@ namespace vt
       G.in_case = false;
    }
 
+   struct plain_input
+   {
+      template< typename In >
+      using type = In;
+   };
+   struct depth_input
+   {
+      template< typename In >
+      using type = pegtl::input_with_depth< In >;
+   };
+
    // run one case on a memory_input over an exact-size heap copy of the data
-   template< typename Rule, template< typename... > class Action, template< typename... > class Control, pegtl::apply_mode A, pegtl::rewind_mode M, pegtl::tracking_mode T, typename Eol >
+   template< typename Rule, template< typename... > class Action, template< typename... > class Control, pegtl::apply_mode A, pegtl::rewind_mode M, pegtl::tracking_mode T, typename Eol, typename Wrap = plain_input >
    void run_memory_case( CaseCfg c, const std::string& data )
    {
       describe< Rule >();
@@ -1003,7 +1070,7 @@ namespace vt
       std::memcpy( blk, data.data(), data.size() );
       begin_case( c, blk, data.size() );
       {
-         pegtl::memory_input< T, Eol, std::string > in( blk, blk + data.size(), "src", std::size_t( c.ib ), std::size_t( c.il ), std::size_t( c.ic ) );
+         typename Wrap::template type< pegtl::memory_input< T, Eol, std::string > > in( blk, blk + data.size(), "src", std::size_t( c.ib ), std::size_t( c.il ), std::size_t( c.ic ) );
          try {
             const bool res = pegtl::parse< Rule, Action, Control, A, M >( in );
             end_case_ok( res, in );
@@ -1020,6 +1087,12 @@ namespace vt
    template< typename F >
    void for_all_strings( const std::string& alphabet, int maxlen, F&& f )
    {
+      for( const std::string& x : g().inputs ) {
+         f( x );
+      }
+      if( maxlen < 0 ) {
+         return;
+      }
       std::string s;
       f( s );
       for( int len = 1; len <= maxlen; ++len ) {
